@@ -188,14 +188,14 @@ func buildOverlay(spec *HarnessSpec, verifRoot string) (map[string][]byte, error
 		} else {
 			pkgName = string(m[1])
 		}
-		vp := filepath.Join("/repo", spec.Pkg, "zz_vrt_"+strings.ReplaceAll(f, "/", "_"))
+		vp := filepath.Join(repoRoot, spec.Pkg, "zz_vrt_"+strings.ReplaceAll(f, "/", "_"))
 		ov[vp] = src
 	}
 	prims, err := os.ReadFile(filepath.Join(verifRoot, "harness", "common", "vrt_prims.go.tmpl"))
 	if err != nil {
 		return nil, err
 	}
-	ov[filepath.Join("/repo", spec.Pkg, "zz_vrt_prims.go")] = []byte(strings.Replace(string(prims), "package PKG", "package "+pkgName, 1))
+	ov[filepath.Join(repoRoot, spec.Pkg, "zz_vrt_prims.go")] = []byte(strings.Replace(string(prims), "package PKG", "package "+pkgName, 1))
 	return ov, nil
 }
 
@@ -206,7 +206,7 @@ func loadProgram(spec *HarnessSpec, verifRoot string) (*ssa.Program, []*packages
 	}
 	cfg := &packages.Config{
 		Mode:       packages.LoadAllSyntax,
-		Dir:        "/repo",
+		Dir:        repoRoot,
 		BuildFlags: []string{"-tags=verif"},
 		Overlay:    ov,
 		Env:        append(os.Environ(), "GOFLAGS=-mod=mod", "GOPROXY=off", "GOSUMDB=off", "GOTOOLCHAIN=local"),
@@ -434,7 +434,7 @@ func fileSHA(path string) string {
 func (e *Engine) encodedFunctions() (repoFuncs []string, depFuncs int, files map[string]string) {
 	files = map[string]string{}
 	for fn, file := range e.funcs {
-		if strings.HasPrefix(file, "/repo/") && !strings.Contains(file, "zz_vrt_") {
+		if strings.HasPrefix(file, repoRoot+"/") && !strings.Contains(file, "zz_vrt_") {
 			repoFuncs = append(repoFuncs, fn)
 			if _, ok := files[file]; !ok {
 				files[file] = fileSHA(file)
